@@ -39,12 +39,31 @@ func newSingleFoodReporter returns (r)
   ensures @fresh r != nil && fresh(r) && r.output != nil && fresh(r.output) && r.db == db && r.config == config
   ensures @sink [C17] bufSink == store(old(bufSink), r.output, payload(config.Output)) && bufSticky == store(old(bufSticky), r.output, false)
 
+// single-food register (`reg --single-food REGEX`): one row "DATE<tab>NAME<tab>QUANTITY" per entry of the day whose
+// name matches the pattern, nothing for the others; a pattern that does not compile is an error, not an empty
+// report. Whether a row is printed depends on that entry alone (C12: days and entries are independent).
 func (*singleFoodReporter).Process returns (err)
-  props C17 C08
+  props C17 C08 C12 C07
   requires @args r != nil && ln != nil && r.output != nil
   modifies ghost(bufSticky, sinkFailed, sinkPend, prLen, prSink, prArg, prArgs, prFmt)
+  let B := prLen
+  let P := r.config.SingleFood
+  let NE := len(ln.Elements)
   ensures @sink [C17] BufStep(r.output)
-  loop 1 { invariant @sink r == old(r) && ln == old(ln) && r.output == old(r.output) && BufStep(r.output) }
+  ensures @bad-pattern [C08 C12] ReBad(P) && NE > 0 ==> err != nil
+  ensures @good-pattern [C12] !ReBad(P) ==> err == nil
+  ensures @none-match [C12 C07] err == nil && (forall j int :: {ln.Elements[j]} 0 <= j && j < NE ==> !ReMatch(P, ln.Elements[j].Name)) ==> prLen == B
+  ensures @all-match [C12 C07] err == nil && (forall j int :: {ln.Elements[j]} 0 <= j && j < NE ==> ReMatch(P, ln.Elements[j].Name)) ==> prLen == B + NE
+  ensures @at-most-one-row-per-entry [C12 C07] B <= prLen && prLen <= B + NE
+  ensures @layout [C12] forall k int :: {prFmt[k]} B <= k && k < prLen ==> prFmt[k] == "%s\t%s\t%0.2f\n"
+  loop 1 {
+    invariant @sink r == old(r) && ln == old(ln) && r.output == old(r.output) && BufStep(r.output)
+    invariant @pattern #i > 0 ==> !ReBad(P)
+    invariant @none (forall j int :: {ln.Elements[j]} 0 <= j && j < #i ==> !ReMatch(P, ln.Elements[j].Name)) ==> prLen == B
+    invariant @all (forall j int :: {ln.Elements[j]} 0 <= j && j < #i ==> ReMatch(P, ln.Elements[j].Name)) ==> prLen == B + #i
+    invariant @count B <= prLen && prLen <= B + #i
+    invariant @layout forall k int :: {prFmt[k]} B <= k && k < prLen ==> prFmt[k] == "%s\t%s\t%0.2f\n"
+  }
 
 func (*singleFoodReporter).Flush returns (err)
   props C17 C08
